@@ -53,6 +53,15 @@ def handle : List String → Verdict
       { predfail := pred, nontrivial := faultHits || errKind != "nil",
         tags := ["render:" ++ comp, "err:" ++ errKind, if zeroS == "true" then "zero-write" else "short-write"], sig := s!"render;{comp};{errKind}" }
     | _, _ => .badOp
+  | ["selffail", comp, okDocH, gotH, errKind] =>
+    match hexField okDocH, hexField gotH with
+    | some okDoc, some got =>
+      { predfail :=
+          if errKind == "nil" then some s!"{comp}: an expression / nested component failed but Render returned nil ({got.length} bytes written)"
+          else if !isPrefix got okDoc || got == okDoc then some s!"{comp}: what was written before the failure is not a proper prefix of the document of the non-failing variant"
+          else none,
+        nontrivial := true, tags := ["selffail:" ++ comp], sig := s!"selffail;{comp}" }
+    | _, _ => .badOp
   | ["after", comp, docH, gotH, errKind] =>
     -- a healthy render right after a failed one, sharing the pools
     match hexField docH, hexField gotH with
